@@ -26,10 +26,11 @@ const (
 	HNewCEQ
 	HNewCPQ
 	HNewTarget // a long-lived distance target object, reused by later EdgeQuery calls
+	HSetOpts   // the caller changes the options of a live EdgeQuery through the options object it kept
 	NumHKinds
 )
 
-var hNames = [...]string{"Query", "Add", "Build", "Reset", "Invert", "Normalize", "EncodeDecode", "NewEdgeQuery", "NewCrossingEdgeQuery", "NewContainsPointQuery", "NewTarget"}
+var hNames = [...]string{"Query", "Add", "Build", "Reset", "Invert", "Normalize", "EncodeDecode", "NewEdgeQuery", "NewCrossingEdgeQuery", "NewContainsPointQuery", "NewTarget", "SetOptions"}
 
 // mutation kinds recorded for loops/polygons
 const (
@@ -68,6 +69,8 @@ func (h *HStep) String() string {
 		return fmt.Sprintf("NewEdgeQuery(obj%d,%s)", h.Obj, h.EQ)
 	case HNewCPQ:
 		return fmt.Sprintf("NewContainsPointQuery(obj%d,model=%d)", h.Obj, int(h.Model))
+	case HSetOpts:
+		return fmt.Sprintf("SetOptions(q%d,%s)", h.Shape, h.EQ)
 	case HNewTarget:
 		far := "Min"
 		if h.Q.EQ.Furthest {
@@ -141,6 +144,17 @@ func drawHistory(g *gen.G, descs []*ObjDesc, maxSteps int) []HStep {
 		k := t.Uint(20)
 		if forceFocus {
 			k = 0 // a query
+			if focusFam == HNewEQ && t.Chance(200) {
+				// ... or the caller changes the options of the focused query between two questions
+				var h HStep
+				h.Kind, h.Obj, h.Shape = HSetOpts, focusObj, focusID
+				h.EQ = drawEQOpts(g)
+				h.EQ.Furthest = sq.eqOpt[focusID].Furthest
+				sq.eqOpt[focusID] = h.EQ
+				steps = append(steps, h)
+				focusLeft++
+				continue
+			}
 		}
 		if d.Kind == OIndex {
 			switch {
@@ -199,6 +213,15 @@ func drawHistory(g *gen.G, descs []*ObjDesc, maxSteps int) []HStep {
 			h.EQ = drawEQOpts(g)
 			if t.Chance(200) {
 				h.EQ.MaxError = s1.ChordAngleFromAngle(s1.Angle(t.Float() * 0.05))
+			}
+			if r := sq.pickEQ(t, obj); r >= 0 && t.Chance(400) {
+				// change the options of an existing query instead (same sense: closest/furthest)
+				h.Kind = HSetOpts
+				h.Shape = r
+				h.EQ.Furthest = sq.eqOpt[r].Furthest
+				sq.eqOpt[r] = h.EQ
+				focusFam, focusID, focusObj, focusLeft = HNewEQ, r, obj, 1+int(t.Uint(3))
+				break
 			}
 			sq.eqObj = append(sq.eqObj, obj)
 			sq.eqOpt = append(sq.eqOpt, h.EQ)
@@ -564,9 +587,14 @@ func runC13(rc *runCtx) *RunResult {
 			case HCodec:
 				applyMut(o, MCodec)
 			case HNewEQ:
-				qs.EQ = append(qs.EQ, h.EQ.newQuery(o.Index))
+				nq, eo := h.EQ.newQueryWithOptions(o.Index)
+				qs.EQ = append(qs.EQ, nq)
+				qs.EQO = append(qs.EQO, eo)
 				qs.EQOpt = append(qs.EQOpt, h.EQ)
 				qs.EQObj = append(qs.EQObj, h.Obj)
+			case HSetOpts:
+				h.EQ.apply(qs.EQO[h.Shape])
+				qs.EQOpt[h.Shape] = h.EQ
 			case HNewTarget:
 				qs.Tgt = append(qs.Tgt, targetCalls(&h.Q, world, true))
 			case HNewCEQ:
